@@ -574,3 +574,34 @@ def rebind(f, **globs):
     g = dict(f.__globals__)
     g.update(globs)
     return _t.FunctionType(f.__code__, g, f.__name__, f.__defaults__, f.__closure__)
+
+
+class SymDict(dict):
+    """a dict whose look-ups with a SYMBOLIC key compare against the stored keys by equality (each comparison forks);
+    concrete keys behave as in a plain dict.  Stands in for idx -> uid / idx -> model maps when indices are symbols."""
+
+    def _find(self, k):
+        if not isinstance(k, (SR, SB)):
+            return k if dict.__contains__(self, k) else _MISSING
+        for key in dict.keys(self):
+            if isinstance(key, (str, type(None))):
+                continue
+            if bool(k == key):
+                return key
+        return _MISSING
+
+    def __contains__(self, k):
+        return self._find(k) is not _MISSING
+
+    def __getitem__(self, k):
+        key = self._find(k)
+        if key is _MISSING:
+            raise KeyError(k)
+        return dict.__getitem__(self, key)
+
+    def get(self, k, default=None):
+        key = self._find(k)
+        return default if key is _MISSING else dict.__getitem__(self, key)
+
+
+_MISSING = object()
